@@ -150,7 +150,7 @@ def run_tlc(module_path, cfg_path, *, workers=None, simulate=None, depth=None, t
     """Run TLC on module/config.  Returns TLCResult.  module_path may live in any directory;
     the spec directory is added to the library path through -DTLA-Library."""
     meta = tempfile.mkdtemp(prefix="tlc.", dir=workdir())
-    cmd = ["java", "-XX:+UseParallelGC", "-Xmx12g", "-DTLA-Library=" + SPEC + ":" + os.path.join(SPEC, "mc"), *jvm,
+    cmd = ["java", "-XX:+UseParallelGC", "-XX:ParallelGCThreads=%d" % (2 if (workers or NCPU) <= 2 else 8), "-Xmx%s" % ("4g" if (workers or NCPU) <= 2 else "12g"), "-DTLA-Library=" + SPEC + ":" + os.path.join(SPEC, "mc"), *jvm,
            "-cp", _classpath(), "tlc2.TLC",
            "-metadir", meta, "-noGenerateSpecTE", "-config", cfg_path]
     cmd += ["-workers", str(workers if workers is not None else NCPU)]
